@@ -610,7 +610,8 @@ public:
     void scaleAst(const AnalyserEquationAstPtr &ast,
                   const AnalyserEquationAstPtr &astParent,
                   double scalingFactor);
-    void scaleEquationAst(const AnalyserEquationAstPtr &ast);
+    void scaleEquationAst(const AnalyserEquationAstPtr &ast,
+                          const AnalyserInternalVariablePtrs &unknownVariables);
 
     static bool isExternalVariable(const AnalyserInternalVariablePtr &variable);
 
@@ -2448,7 +2449,8 @@ void Analyser::AnalyserImpl::scaleAst(const AnalyserEquationAstPtr &ast,
     }
 }
 
-void Analyser::AnalyserImpl::scaleEquationAst(const AnalyserEquationAstPtr &ast)
+void Analyser::AnalyserImpl::scaleEquationAst(const AnalyserEquationAstPtr &ast,
+                                              const AnalyserInternalVariablePtrs &unknownVariables)
 {
     // Make sure that we have an AST to scale.
 
@@ -2458,8 +2460,8 @@ void Analyser::AnalyserImpl::scaleEquationAst(const AnalyserEquationAstPtr &ast)
 
     // Recursively scale the given AST's children.
 
-    scaleEquationAst(ast->mPimpl->mOwnedLeftChild);
-    scaleEquationAst(ast->mPimpl->mOwnedRightChild);
+    scaleEquationAst(ast->mPimpl->mOwnedLeftChild, unknownVariables);
+    scaleEquationAst(ast->mPimpl->mOwnedRightChild, unknownVariables);
 
     // If the given AST node is a variable (i.e. a CI node) then we may need to
     // do some scaling.
@@ -2493,8 +2495,18 @@ void Analyser::AnalyserImpl::scaleEquationAst(const AnalyserEquationAstPtr &ast)
             }
         }
 
-        if (((astParent->mPimpl->mType != AnalyserEquationAst::Type::EQUALITY)
-             || (astParent->mPimpl->mOwnedLeftChild != ast))
+        // Note: a variable that is on its own on the LHS/RHS of the equation is
+        //       only left alone if it is the variable that the equation
+        //       computes (e.g., the equation a = b may well be used to compute
+        //       b, in which case a needs to be scaled like any other variable
+        //       that is used).
+
+        auto isComputedVariable = (astParent->mPimpl->mType == AnalyserEquationAst::Type::EQUALITY)
+                                  && std::any_of(unknownVariables.begin(), unknownVariables.end(), [=](const auto &unknownVariable) {
+                                         return unknownVariable->mVariable == ast->variable();
+                                     });
+
+        if (!isComputedVariable
             && (astParent->mPimpl->mType != AnalyserEquationAst::Type::BVAR)) {
             // We are dealing with a variable which is neither a computed
             // variable nor our variable of integration, so retrieve its scaling
@@ -3219,7 +3231,7 @@ void Analyser::AnalyserImpl::analyseModel(const ModelPtr &model)
         // we may have mapped variables that use compatible units rather than
         // equivalent ones.
 
-        scaleEquationAst(internalEquation->mAst);
+        scaleEquationAst(internalEquation->mAst, internalEquation->mUnknownVariables);
 
         // Manipulate the equation, if needed.
 
